@@ -270,6 +270,23 @@ static var Table_Get(var self, var key);
 static int Table_Cmp(var self, var obj) {
   
   int c;
+  
+  /* Tables that hold the same bindings are equal however their slots are
+  ** laid out (a copy, or a table with reserved space, orders them anew) */
+  if (implements_method(obj, Len, len) and implements_method(obj, Get, mem)
+  and len(self) is len(obj)) {
+    bool same = true;
+    var key = Table_Iter_Init(self);
+    while (key isnt Terminal) {
+      if (not mem(obj, key) or neq(Table_Get(self, key), get(obj, key))) {
+        same = false;
+        break;
+      }
+      key = Table_Iter_Next(self, key);
+    }
+    if (same) { return 0; }
+  }
+  
   var item0 = Table_Iter_Init(self);
   var item1 = iter_init(obj);
   
